@@ -5,6 +5,7 @@ package main
 // the map-backed simple graphs.
 
 import (
+	"math"
 	"sort"
 
 	"gonum.org/v1/gonum/graph"
@@ -54,40 +55,93 @@ func copyRoundTrip(c *vrt.Ctx, r *runner) {
 }
 
 // undirectView checks graph.Undirect / graph.UndirectWeighted over the final
-// directed graph against the symmetric closure of the model.
+// directed graph against the symmetric closure of the model: with the default
+// Merge (arithmetic mean) and a non-default Absent, with an explicit
+// commutative Merge that also looks at which of the two edges is nil, and once
+// more after the caller has modified the slices obtained from the view.
 func undirectView(c *vrt.Ctx, r *runner) {
 	f, m := r.f, r.m
 	self, absent := f.selfAbsent()
-	const viewAbsent = -11.0
-	var (
-		g    graph.Undirected
-		wg   graph.WeightedUndirected
-		name = "graph.Undirect"
-	)
+	type view struct {
+		label      string
+		g          graph.Undirected
+		wg         graph.WeightedUndirected
+		viewAbsent float64
+		merge      func(x, y float64, xe, ye graph.Edge) float64
+	}
+	var views []view
+	name := "graph.Undirect"
 	if f.weighted {
 		name = "graph.UndirectWeighted"
-		u := graph.UndirectWeighted{G: r.s.g.(graph.WeightedDirected), Absent: viewAbsent}
-		g, wg = u, u
+		wd := r.s.g.(graph.WeightedDirected)
+		u1 := graph.UndirectWeighted{G: wd, Absent: -11}
+		views = append(views, view{"Absent=-11,Merge=nil", u1, u1, -11, nil})
+		u2 := graph.UndirectWeighted{G: wd, Absent: 3, Merge: mergeMaxNil}
+		views = append(views, view{"Absent=3,Merge=max-with-nil-penalty", u2, u2, 3, mergeMaxNil})
+		u3 := graph.UndirectWeighted{G: wd}
+		views = append(views, view{"zero-value-options", u3, u3, 0, nil})
 	} else {
-		g = graph.Undirect{G: r.s.g.(graph.Directed)}
+		views = append(views, view{"", graph.Undirect{G: r.s.g.(graph.Directed)}, nil, 0, nil})
 	}
-	c.Eval(name+"|"+f.name, len(m.edges) > 0)
-	var mm *mismatch
-	p := vrt.Try(func() { mm = undirectSweep(g, wg, m, r.universe, self, absent, viewAbsent, &r.queries) })
-	if p != nil {
-		if ab, ok := p.Value.(*mismatch); ok {
-			mm = ab
-		} else {
-			r.violate(name+"|"+f.name+"|query-panicked", p.Msg+"\n"+p.Stack)
-			return
+	for _, v := range views {
+		for pass := 0; pass < 2; pass++ {
+			c.Eval(name+"|"+f.name+"|"+v.label, len(m.edges)+len(m.lines) > 0 || f.dense)
+			var mm *mismatch
+			p := vrt.Try(func() {
+				mm = undirectSweep(v.g, v.wg, m, r.universe, self, absent, v.viewAbsent, v.merge, &r.queries)
+			})
+			if p != nil {
+				if ab, ok := p.Value.(*mismatch); ok {
+					mm = ab
+				} else {
+					r.violate(name+"|"+f.name+"|query-panicked", p.Msg+"\n"+p.Stack)
+					return
+				}
+			}
+			when := ""
+			if pass == 1 {
+				when = "|after the caller modified slices from the view"
+			}
+			if mm != nil {
+				r.violate(name+"|"+f.name+"."+mm.query+when+"|"+mm.clause, "undirected view ("+v.label+") of the final graph: "+mm.String())
+				return
+			}
+			if pass == 1 {
+				break
+			}
+			// The caller modifies what the view hands out; neither the view nor
+			// the wrapped graph may change.
+			n := 0
+			hs := []*held{{nodes: graph.NodesOf(v.g.Nodes())}}
+			for _, x := range r.universe {
+				hs = append(hs, &held{nodes: graph.NodesOf(v.g.From(x))})
+			}
+			for _, h := range hs {
+				if h.len() > 0 {
+					h.scramble()
+					n++
+				}
+			}
+			c.Count("ownership.slices_modified_by_the_caller", int64(n))
+			if mm := r.sweep(sweepOpts{global: true}); mm != nil {
+				r.violate(f.name+"."+mm.query+"|after the caller modified slices from "+name+"|"+mm.clause, mm.String())
+				return
+			}
 		}
-	}
-	if mm != nil {
-		r.violate(name+"|"+f.name+"."+mm.query+"|"+mm.clause, "undirected view of the final graph: "+mm.String())
 	}
 }
 
-func undirectSweep(g graph.Undirected, wg graph.WeightedUndirected, m *model, universe []int64, self, absent, viewAbsent float64, nq *int64) *mismatch {
+// mergeMaxNil is a commutative Merge that depends on both weights and on
+// which of the edges exist.
+func mergeMaxNil(x, y float64, xe, ye graph.Edge) float64 {
+	w := math.Max(x, y)
+	if xe == nil || ye == nil {
+		w -= 0.25
+	}
+	return w
+}
+
+func undirectSweep(g graph.Undirected, wg graph.WeightedUndirected, m *model, universe []int64, self, absent, viewAbsent float64, merge func(x, y float64, xe, ye graph.Edge) float64, nq *int64) *mismatch {
 	fail := func(q string, x, y int64, got, want, clause string) {
 		panic(&mismatch{query: q, x: x, y: y, got: got, want: want, clause: clause})
 	}
@@ -158,8 +212,22 @@ func undirectSweep(g graph.Undirected, wg graph.WeightedUndirected, m *model, un
 					rw = viewAbsent
 				}
 				wantW, wantOK := (fw+rw)/2, fok || rok
+				exists := fe != "nil" || re != "nil"
+				if merge != nil {
+					var xe, ye graph.Edge
+					if fe != "nil" {
+						xe = E{}
+					}
+					if re != "nil" {
+						ye = E{}
+					}
+					wantW = merge(fw, rw, xe, ye)
+				}
 				gw, gok := wg.Weight(x, y)
-				if !sameW(gw, wantW) || gok != wantOK {
+				// With an explicit Merge the weight of a pair without any edge
+				// is not specified ("a merge is performed if at least one edge
+				// exists"); only ok is compared there.
+				if (!sameW(gw, wantW) && (merge == nil || exists)) || gok != wantOK {
 					fail("Weight", x, y, weightRep(gw, gok), weightRep(wantW, wantOK), "differs-from-model")
 				}
 				we := wg.WeightedEdgeBetween(x, y)
